@@ -8,11 +8,11 @@ import (
 
 // Op is one API call (or caller action) of a simulated client.
 type Op struct {
-	K    string       `json:"k"`             // search | esearch | compile | mustcompile | feed | mutate
-	E    int          `json:"e,omitempty"`   // expression index
-	D    int          `json:"d,omitempty"`   // document index
+	K    string       `json:"k"`              // search | esearch | compile | mustcompile | feed | mutate
+	E    int          `json:"e,omitempty"`    // expression index
+	D    int          `json:"d,omitempty"`    // document index
 	Slot int          `json:"slot,omitempty"` // C06: compiled-expression slot
-	R    int          `json:"r,omitempty"`   // C06 feed: result index
+	R    int          `json:"r,omitempty"`    // C06 feed: result index
 	Pol  simrt.Policy `json:"p"`
 	Mut  uint64       `json:"mut,omitempty"` // C06 mutate: seed of the caller's own modification
 }
@@ -56,11 +56,11 @@ func randSchedule(r *Rng, ntasks int, gcPct int) simrt.Schedule {
 	var s simrt.Schedule
 	switch r.Intn(10) {
 	case 0:
-		s = simrt.Schedule{Kind: simrt.StratExplicit, First: r.Intn(ntasks)} // sequential
+		s = simrt.Schedule{Kind: simrt.StratExplicit, First: r.Intn(ntasks), Seed: r.U64()} // sequential
 	case 1, 2, 3:
 		s = simrt.Schedule{Kind: simrt.StratPCT, Seed: r.U64(), Depth: 1 + r.Intn(3), Horizon: pick(r, []uint64{64, 256, 1024, 4096})}
 	default:
-		s = simrt.Schedule{Kind: simrt.StratWalk, Seed: r.U64(), WalkDen: pick(r, []uint64{2, 4, 16, 64, 256})}
+		s = simrt.Schedule{Kind: simrt.StratWalk, Seed: r.U64(), WalkDen: pick(r, []uint64{8, 32, 128, 512, 2048})}
 	}
 	if r.Intn(100) < gcPct {
 		n := 1 + r.Intn(2)
@@ -193,7 +193,7 @@ func GenC06(seed, index uint64, maxOps int) *Workload {
 		ops = append(ops, op)
 	}
 	w.Tasks = [][]Op{ops}
-	w.Sched = simrt.Schedule{Kind: simrt.StratExplicit}
+	w.Sched = simrt.Schedule{Kind: simrt.StratExplicit, Seed: r.U64()}
 	if r.P(1, 5) {
 		w.Sched.GCSteps = []uint64{uint64(r.Intn(3000))}
 	}
@@ -213,5 +213,6 @@ func GenC15(seed, index uint64) *Workload {
 		{Kind: simrt.PolHash, Seed: r.U64() >> 8}, {Kind: simrt.PolHash, Seed: r.U64() >> 8},
 		{Kind: simrt.PolNative},
 	}
+	w.Sched = simrt.Schedule{Kind: simrt.StratExplicit, Seed: r.U64()}
 	return w
 }
